@@ -48,8 +48,10 @@ ScaleWhy(e, s) ==
 
 Why(e) ==
   CASE e.op \in {"synth", "encode"} -> IF e.res.kind = "ok" THEN "" ELSE "source-not-created"
-    [] e.op = "scale"  -> IF e.src \in DOMAIN tbl THEN ScaleWhy(e, tbl[e.src]) ELSE "unknown-handle"
-    [] e.op = "reread" -> IF e.src \in DOMAIN tbl /\ e.res.kind = "ok" /\ Entry(e.res) = tbl[e.src] THEN "" ELSE "barcode-changed"
+    [] e.op = "scale"  -> IF e.res.kind = "nosource" THEN ""       \* its source was refused earlier (judged there): nothing to scale
+                          ELSE IF e.src \in DOMAIN tbl THEN ScaleWhy(e, tbl[e.src]) ELSE "unknown-handle"
+    [] e.op = "reread" -> IF e.res.kind = "nosource" THEN ""
+                          ELSE IF e.src \in DOMAIN tbl /\ e.res.kind = "ok" /\ Entry(e.res) = tbl[e.src] THEN "" ELSE "barcode-changed"
     [] OTHER -> "unknown-event"
 
 Step ==
